@@ -13,6 +13,13 @@ def load():
         r = tlc.run_tlc("P21Sep", "P21Sep.cfg", workers=1, timeout=120, on_case=out.append)
         if r.rc != 0 or r.errors or len(out) != 1:
             raise InfraError("P21Sep did not list the separators: %s" % r.tail[-8:])
+        # every separator must consist of blanks and complete comments only (TLC strings are atomic, so the module
+        # cannot check that a comment body is free of the closing pair itself)
+        import re
+        for kind, L in out[0].items():
+            for x in L:
+                if not re.fullmatch(r"(?:\s|/\*(?:(?!\*/).)*?\*/)+", x, flags=re.S):
+                    raise InfraError("P21Sep lists %r, which is not a sequence of token separators" % x)
         _cache.update(out[0])
     return _cache
 
